@@ -64,7 +64,7 @@ def explore(ctx, extended=False, focus=None):
                "non-boolean, try/except at any level, explicit raises, comparison and assert_zero operations with valid and invalid "
                "values), depth <= 4; two streams: only guarded() regions, and mixed with bare add_guard/restore_guard pairs; "
                "distinct = distinct token strings; non-trivial = contains a region")
-    n = ctx.n(400, 20000) * (4 if extended else 1)
+    n = ctx.n(2000, 60000) * (4 if extended else 1)
     lines = []
     hist = []
     for i in range(n):
